@@ -708,3 +708,96 @@ def rule_mem_base_label(chk, A):
                detail="`%s` takes the memory operand's base id as a label id on a path that never established has_base_label(): an absolute "
                       "address ([abs], base id 0) is resolved against label #0" % " ".join(emit.text(tgt).split())[:60], key="membaselabel|%d" % n)
     chk.floor(R + ":sites", n, 1)
+
+
+def rule_q_sz_related(chk, A):
+    """hand-written FP vector cases: the element size is related to the register width"""
+    import collections
+    R = "R-Q-SZ-RELATED"
+    chk.rule(R, "a64 _emit: in a case that derives `q` from an operand's register width (diff(reg_type, kVec64)) and `sz` from the same "
+                "operand's element type and accepts the D element size, some branch condition reads both values: a 64-bit vector of D "
+                "elements (.1D, sz:Q with Q = 0) is a reserved arrangement of the vector FP classes, and without such a condition it "
+                "cannot be refused")
+    emit, regions = A["emit"], A["regions"]
+    qs, szs = collections.defaultdict(list), collections.defaultdict(list)
+    for i, x in emit.ex.items():
+        if x["k"] != "decl":
+            continue
+        for v in x["vars"]:
+            if not v.get("init"):
+                continue
+            t = re.sub(r"\s+", "", emit.text(v["init"]))
+            reg = tuple(r for r in regions.group_of_line(x["l"]) if r.startswith("case:"))
+            m1 = re.match(r"diff\((.*)\.reg_type\(\),RegType::kVec64\)$", t)
+            m2 = re.match(r"diff\((.*)\.element_type\(\),VecElementType::k([BH])\)$", t)
+            if m1:
+                qs[reg].append((v["did"], v["name"], x["l"], re.sub(r"\.as<[^>]*>\(\)", "", m1.group(1))))
+            if m2:
+                szs[reg].append((v["did"], v["name"], x["l"], re.sub(r"\.as<[^>]*>\(\)", "", m2.group(1)), m2.group(2)))
+    from .must import Must
+    locals_ = set()
+    for i, x in emit.ex.items():
+        if x["k"] == "decl":
+            for v in x["vars"]:
+                locals_.add(v["did"])
+
+    def relations(cond):
+        out = []
+        for j in emit.walk(cond):
+            y = emit.e(j)
+            # a relation: one comparison, or one conjunction, whose operands mention both values (`q > 1 || sz > 2` is two independent tests)
+            if y is not None and y["k"] == "binop" and y["op"] in ("&&", "<", ">", "<=", ">=", "==", "!="):
+                dids = sorted({(emit.e(j2) or {}).get("did") for j2 in emit.walk(j) if (emit.e(j2) or {}).get("k") == "ref" and (emit.e(j2) or {}).get("did") in locals_})
+                for a_ in dids:
+                    for b_ in dids:
+                        if a_ < b_:
+                            out.append(("rel", a_, b_))
+        return out
+    # the relation holds information as soon as the condition starts to be evaluated: attach it to the first evaluated leaf, so that
+    # every way out of a short-circuit chain (`if (sz && !q)`) carries it
+    blk = emit.block_of()
+    gen_at = {}
+    for x in emit.ex.values():
+        if x["k"] == "s:IfStmt" and x.get("cond") is not None:
+            rel = relations(x["cond"])
+            if not rel:
+                continue
+            leaves = [j for j in emit.walk(x["cond"]) if j in blk]
+            if not leaves:
+                continue
+            order = {b_: k_ for k_, b_ in enumerate(emit.rpo())}
+            first = min(leaves, key=lambda j: (order.get(blk[j][0], 1 << 30), blk[j][1]))
+            gen_at.setdefault(first, []).extend(rel)
+
+    def elem_rel(eid, x):
+        if eid in gen_at:
+            return (tuple(gen_at[eid]), ())
+        return None
+    m = Must(emit, elem_rel, None)
+    n = 0
+    for reg in sorted(set(qs) & set(szs)):
+        for qd, qn, ql, qop in qs[reg]:
+            mates = [(sd, sn) for sd, sn, sl, sop, base in szs[reg] if sop == qop and abs(ql - sl) <= 12]
+            if not mates:
+                continue
+            for i, x in sorted(emit.calls(lambda x: x["k"] == "mcall" and x.get("cn") == "add_imm" and len(x.get("args", [])) == 2)):
+                a = emit.e(emit.strip(x["args"][0]))
+                sh = emit.e(emit.strip(x["args"][1]))
+                if a is None or a["k"] != "ref" or a.get("did") != qd or sh is None or sh.get("cv") != 30:
+                    continue
+                n += 1
+                st = m.before(i) or frozenset()
+                # connected component of q in the relation facts
+                comp, grew = {qd}, True
+                while grew:
+                    grew = False
+                    for f_ in st:
+                        if f_[0] == "rel" and ((f_[1] in comp) != (f_[2] in comp)):
+                            comp |= {f_[1], f_[2]}
+                            grew = True
+                ok = any(sd in comp for sd, _sn in mates)
+                chk.ob(R, "%s|%s,%s@%d" % ("+".join(r[5:] for r in reg), qn, mates[0][1], emit.line_of(i)), ok, loc=emit.loc(i),
+                       detail="`%s` (register width) is packed on a path on which it was range-tested on its own but never related to `%s` (element "
+                              "size of %s): `.1D` is accepted and encoded with the reserved size:Q combination" % (qn, mates[0][1], qop),
+                       key="qsz|%s|%d" % ("+".join(r[5:] for r in reg), n))
+    chk.floor(R + ":cases", n, 4)
